@@ -21,6 +21,8 @@ extern crate lalrpop;
 // abstractions). This should be done before any additional work is applied to
 // the file.
 fn main() {
+    println!("cargo::rustc-check-cfg=cfg(seed_verif)");
+
     lalrpop::process_root().unwrap();
 
     let raw_tgt_dir = env::var("OUT_DIR").unwrap();
